@@ -14,6 +14,10 @@ def kindStr : Kind → String | .btc => "btc" | .evm => "evm" | .sub => "sub"
 def parseRound (s : String) : Option (Round × Option Nat) :=
   match s.splitOn ":" with
   | hd :: fl :: st :: rest => do
+    -- `<height>~<c>`: the BTC node reports `c` confirmations for the best block it hands out (c > 1: the tip moved on
+    -- between the two RPCs). The code under test reads only the height; the head of the round is that height, which IS
+    -- the true tip at the time of the head query (GetBestBlockHash).
+    let hd := (hd.splitOn "~").headD hd
     let head ← if hd = "E" || hd = "F" then some none else (hd.toInt?).map some
     let pan ← if fl.startsWith "p" then ((fl.drop 1).toString.toNat?).map some else some none
     let fail ← if fl = "n" then some none else if pan.isSome then some pan else (fl.toNat?).map some
@@ -61,7 +65,7 @@ def parseRun (s : String) : Option (List Obs) := (items s ";").mapM parseObs
 
 /-- `E`/`F` = the head could not be read -/
 def parseHead (s : String) : Option (Option Int) :=
-  if s = "E" || s = "F" then some none else (s.toInt?).map some
+  if s.startsWith "E" || s.startsWith "F" then some none else (s.toInt?).map some
 
 /-- retry ops: `okOut` is printed when the guard passes -/
 def retryVerdict (name : String) (head : Option Int) (ready : Int → Bool) (confirmedB : Int → Bool)
@@ -133,6 +137,10 @@ def handle (op : String) (args : List String) (impl : String) : Option Verdict :
     let some latest := parseHead latest | return bad
     let some conf := conf.toInt? | return bad
     if receipt = "E" then return ⟨"err", impl == "err", "evmretrytx:rpc-error"⟩
+    -- a receipt without a block number: the block of the deposit is unknown, so nothing can be called confirmed; the code
+    -- as it is dereferences nil there (the RetryV1 handler recovers and emits nothing) unless the head query failed first
+    if receipt = "N" then
+      return ⟨if latest.isNone then "err" else "panic", !(impl.startsWith "ok"), "evmretrytx:no-block-number"⟩
     let some r := receipt.toInt? | return bad
     return retryVerdict "evmretrytx" latest (fun l => retryReady l r conf) (fun l => decide (conf ≤ l - r)) "ok:2" impl "err" false
   | "evmretrymsg", [latest, h, conf] => some <| Id.run do
